@@ -1,10 +1,11 @@
 #!/bin/bash
-# run the given checks for several seeds; print only summary / violation lines
+# run the given checks for several seeds; print only summary / violation lines (+ wall time)
 cd "$(dirname "$0")/.."
 ./setup.sh > /dev/null 2>&1
 for seed in ${SEEDS:-2 3 4}; do
   for pid in "$@"; do
-    out=$(VERIF_SEED=$seed timeout 1500 /venv/bin/python harness/$(echo $pid | tr 'A-Z' 'a-z').py --tier ${TIER:-quick} 2>&1 | grep -E "^VIOLATION|^KNOWN|^C[0-9]+:" | cut -c1-400)
-    echo "seed=$seed $out"
+    t0=$(date +%s)
+    out=$(VERIF_SEED=$seed timeout ${TMO:-1500} /venv/bin/python harness/$(echo $pid | tr 'A-Z' 'a-z').py --tier ${TIER:-quick} 2>&1 | grep -E "^VIOLATION|^KNOWN|^C[0-9]+:" | cut -c1-400)
+    echo "seed=$seed t=$(( $(date +%s) - t0 ))s $out"
   done
 done
